@@ -130,14 +130,23 @@ class Outer(CompoundTensorOperator):
             return Zero(ash + bsh, fi, fid)
         if ash == () or bsh == ():
             return Conj(a) * b
-        return CompoundTensorOperator.__new__(cls)
+        self = CompoundTensorOperator.__new__(cls)
+        self._init(a, b)
+        return self
 
-    def __init__(self, a, b):
-        """Initialise."""
-        CompoundTensorOperator.__init__(self, (a, b))
+    def _init(self, a, b):
+        """Constructor, called by __new__ with already checked arguments."""
+        self.ufl_operands = (a, b)
         fi, fid = merge_nonoverlapping_indices(a, b)
         self.ufl_free_indices = fi
         self.ufl_index_dimensions = fid
+
+    def __init__(self, a, b):
+        """Initialise."""
+        # Operands are set in __new__: when __new__ returns an existing
+        # Outer (outer(1, outer(u, v)) -> 1 * outer(u, v) -> outer(u, v)),
+        # Python still calls __init__ on it and must not overwrite its operands.
+        Operator.__init__(self)
 
     @property
     def ufl_shape(self):
